@@ -68,11 +68,19 @@ func fieldOption(fo fieldOpt) ucfg.Option {
 	panic("field policy " + fo.Pol)
 }
 
-func mergeOptions(pol string, fos []fieldOpt) []ucfg.Option {
-	opts := []ucfg.Option{ucfg.PathSep(".")}
+// mergeOptions: the options of one Merge call.  They form a SET - the per-field options mean the same whether the
+// PathSep option stands before them (sepPlace 0) or after them (sepPlace 1)
+func mergeOptions(pol string, fos []fieldOpt, sepPlace int) []ucfg.Option {
+	var opts []ucfg.Option
+	if sepPlace == 0 || len(fos) == 0 {
+		opts = append(opts, ucfg.PathSep("."))
+	}
 	opts = append(opts, polOption(pol)...)
 	for _, fo := range fos {
 		opts = append(opts, fieldOption(fo))
+	}
+	if sepPlace != 0 && len(fos) > 0 {
+		opts = append(opts, ucfg.PathSep("."))
 	}
 	return opts
 }
@@ -243,8 +251,8 @@ func errClass(err error) string {
 }
 
 // runMerge executes one merge on the real code. repr selects the source form.
-func runMerge(a, b *tree, pol string, fos []fieldOpt, repr string, rng *rand.Rand, checkSource bool) (out mergeOutcome, skipped bool, srcChanged string) {
-	opts := mergeOptions(pol, fos)
+func runMerge(a, b *tree, pol string, fos []fieldOpt, repr string, rng *rand.Rand, checkSource bool, sepPlace int) (out mergeOutcome, skipped bool, srcChanged string) {
+	opts := mergeOptions(pol, fos, sepPlace)
 	sep := ucfg.PathSep(".")
 	obsOpts := []ucfg.Option{sep}
 	srcOpts := []ucfg.Option{sep}
@@ -301,7 +309,7 @@ func runMerge(a, b *tree, pol string, fos []fieldOpt, repr string, rng *rand.Ran
 				ucfg.FieldPrependValues("a.b"), ucfg.FieldReplaceValues("a.c"), ucfg.FieldAppendValues("*")}
 			scratch := map[string]interface{}{"a": []interface{}{1}, "zz": map[string]interface{}{"q": []interface{}{2}}}
 			ucfg.New().Merge(scratch, append(append([]ucfg.Option{}, opts...), extra...)...)
-			ucfg.New().Merge(scratch, append(append([]ucfg.Option{opts[0]}, extra...), opts[1:]...)...)
+			ucfg.New().Merge(scratch, append(append([]ucfg.Option{sep}, extra...), opts...)...)
 		}
 		if err := dst.Merge(src, opts...); err != nil {
 			out.Err = errClass(err)
@@ -437,7 +445,7 @@ func mergeReplay(args []string) int {
 				if k > 0 {
 					r = rng
 				}
-				out, skipped, changed := runMerge(c.A, c.B, c.Pol, c.Fos, repr, r, *checkSource)
+				out, skipped, changed := runMerge(c.A, c.B, c.Pol, c.Fos, repr, r, *checkSource, int((h>>5)&1))
 				if skipped {
 					rep.skip()
 					break
@@ -583,10 +591,11 @@ func mergeDrive(args []string) int {
 			fos = randFieldOpts(rng)
 		}
 		repr := reprs[rng.Intn(3)]
-		out, skipped, _ := runMerge(a, b, pol, fos, repr, rng, false)
+		sepPlace := rng.Intn(2)
+		out, skipped, _ := runMerge(a, b, pol, fos, repr, rng, false, sepPlace)
 		if skipped {
 			repr = "map"
-			out, _, _ = runMerge(a, b, pol, fos, repr, rng, false)
+			out, _, _ = runMerge(a, b, pol, fos, repr, rng, false, sepPlace)
 		}
 		ev := map[string]interface{}{"a": a, "b": b, "pol": pol, "fos": fos, "repr": repr}
 		if fos == nil {
